@@ -88,6 +88,20 @@ CLAIMED["C02"] = dict(
          "correspondence run only).",
     ref="6 C02")
 
+CLAIMED["C05"] = dict(
+    technique="Lean 4 refinement proof: tree of slot arrays (cells addressed by paths, as-written put/get/remove loops) refines a dictionary; destructor ledger; adversarial-key script correspondence",
+    text="Theorems for arbitrary natural-number keys (hence every 128-bit key set): under the invariant (tree shape, depth "
+         "bound, at most one element per key) get returns exactly the element held for the key; put k e makes k hold e, leaves "
+         "every other key unchanged and hands exactly the replaced element to the destructor; remove k reports presence, "
+         "empties k only, destroys exactly that element; the invariant is preserved; lifted to all histories (history_refines) "
+         "against a functional dictionary + log; ledger theorem: each put element is destroyed at most once, never while "
+         "retrievable, and is otherwise still live.",
+    note="Modelled, not verified: index/shift are key % width and key / width (the C code uses & (len-1) and >> log2 len; "
+         "equal for the power-of-two lengths the map computes); gp_map_delete's traversal (the driver enumerates live "
+         "elements through the model's get; observed by the correspondence), FNV-128 of byte keys is C20's model; element "
+         "identity is an id carried in the element; pointer maps must not store NULL.",
+    ref="6 C05")
+
 PENDING = {}
 
 def main():
